@@ -25,6 +25,8 @@ def run(ctx):
             targets.append(("response", proto, seedsel))
         if proto != "v1" and not q:
             targets.append(("response", proto, "bulk"))
+    for proto in ("v2c", "v1"):
+        targets.append(("pyresponse", proto, "multiget" if proto == "v2c" else "get"))      # the same responses consumed through the pythonic wrapper (values are converted)
     for proto in ("v3n", "v3a_md5", "v3p_sha"):
         targets += [("discovery", proto, "get"), ("report", proto, "get")]
     for proto in ("v3a_md5", "v3p_sha"):
@@ -36,7 +38,7 @@ def run(ctx):
             ctx.machinery.append("no seed captured for %s/%s/%s" % (target, proto, seedsel))
             continue
         M = F.mutations(seed, rnd, q, stride=1 if not q else 3)
-        if target in ("response", "discovery"):
+        if target in ("response", "discovery", "pyresponse"):
             M = M + F.sticky_behaviours(proto.startswith("v3"))
         n = 4 if not q else 2
         for i in range(n):
@@ -58,7 +60,7 @@ def run(ctx):
     ctx.rule = ("for valid v1/v2c/v3 (noAuth, authNoPriv, authPriv) responses (1 and 3 bindings%s), notInTimeWindow / unknownUser Reports, discovery replies, "
                 "properly re-signed / re-encrypted responses whose scoped PDU was damaged (after authentication) and v2c traps: every TLV header octet (tag and each "
                 "length octet, incl. inside the USM parameters) substituted by {00,01,02,05,30,7f,80,81,82,83,84,88,a2,ff}, %s, %s, an inserted 0x80 length that "
-                "straddles its container, nesting up to 3000 levels, 60 kB strings, random strings, chains of 8..40 nested lengths that all reach to the end of the datagram, well-formed messages with 1000 / 6400 tiny bindings; each under a process-CPU-time budget of 0.25 s + 50 us/octet and a "
+                "straddles its container, nesting up to 3000 levels, 60 kB strings, random strings, chains of 8..40 nested lengths that all reach to the end of the datagram, well-formed messages with 1000 / 6400 tiny bindings, Opaque / OCTET STRING values that are themselves hostile BER (also consumed through the pythonic wrapper), 0x80 at every header position; each under a process-CPU-time budget of 0.25 s + 50 us/octet and a "
                 "resident-set budget, followed by a valid request on the same client; non-trivial = distinct case the client did not accept") % (
                    ", GETBULK" if not q else "", "every single-bit flip" if not q else "sampled single-bit flips (all top bits of header octets)",
                    "every truncation" if not q else "sampled truncations")
